@@ -402,3 +402,44 @@ def conditions(tier):
         conds.append({"name": "crash/launches2", "func": "crash", "shard": {"launches": 2}, "timeout": 6000})
     conds.append({"name": "source", "func": "source_checksum", "shard": {}, "timeout": 60})
     return conds
+
+
+# ---------------------------------------------------------------- coroutine form of the runner
+# Used by C05 (two overlapping launches of one job script): TaskRunner.run is
+# turned into a generator that yields where the real process would block
+# (lock acquisition) or run user code (the task body), so that two processes
+# can be interleaved deterministically by the harness.
+
+
+def build_coroutine_module():
+    """Compiles run.py with, inside TaskRunner.run, `lock.acquire(...)`
+    replaced by `(yield ("acquire", lock))` and the call of the task body
+    `run(...)` replaced by `(yield ("body",))`"""
+    src = RUN_PY.read_text()
+    tree = ast.parse(src)
+    found = {"acquire": 0, "body": 0}
+
+    class T(ast.NodeTransformer):
+        def visit_Call(self, node):
+            self.generic_visit(node)
+            f = node.func
+            if isinstance(f, ast.Attribute) and f.attr == "acquire" and isinstance(f.value, ast.Name) and f.value.id == "lock":
+                found["acquire"] += 1
+                return ast.copy_location(ast.Yield(ast.Tuple([ast.Constant("acquire"), ast.Name("lock", ast.Load())], ast.Load())), node)
+            if isinstance(f, ast.Name) and f.id == "run":
+                found["body"] += 1
+                return ast.copy_location(ast.Yield(ast.Tuple([ast.Constant("body")], ast.Load())), node)
+            return node
+
+    for node in tree.body:
+        if isinstance(node, ast.ClassDef) and node.name == "TaskRunner":
+            for fn in node.body:
+                if isinstance(fn, ast.FunctionDef) and fn.name == "run":
+                    T().visit(fn)
+    assert found == {"acquire": 1, "body": 1}, f"TaskRunner.run changed shape: {found}"
+    ast.fix_missing_locations(tree)
+    m = types.ModuleType("experimaestro.run_xvco")
+    m.__package__ = "experimaestro"
+    m.__file__ = str(RUN_PY)
+    exec(compile(tree, str(RUN_PY), "exec"), m.__dict__)
+    return m
